@@ -6,6 +6,16 @@ props = [json.loads(l) for l in open(os.path.join(V, "properties.jsonl"))]
 ids = [p["id"] for p in props]
 
 CLAIMS = {
+ "C05": dict(
+   technique="Lean 4 theorems over hand-written models of the notes-tree path logic (any fan-out layout), the range builders and the WF predicate + in-process model-vs-code correspondence (pure helpers and the real writer/lookup on a scratch git repository) + end-to-end WF oracle on histories built with the real binary",
+   text="Machine-checked proof that, from any notes tree with one entry per object at any (mixed) fan-out depth, every sequence of notes_add (git free to re-layout) and notes_add_batch keeps exactly one entry per annotated object, implements last-write-wins and is found by note_blob_oids_for_commits; that ranges built by compress_lines / the post-commit committed bucket from any per-line author function are sorted, pairwise disjoint, within 1..n and human-free; that the rebase range merger yields sorted disjoint ranges and upsert never keeps an absent file; and that a WF note in C17's Serializable domain serialises into the grammar and parses back WF. Models are tied to the Rust code by differential testing on every run; the repository-wide invariant (every note after every operation is WF against its commit) is checked by an independent Python oracle after every operation of commit/amend/rebase/cherry-pick/squash/reset/delete-rename scenarios with delimiter-like file names, seeded depth 0/1/2 trees and git's own re-fan-out, and the Lean WF predicate is cross-checked against that oracle on every real note.",
+   note="Partial: the Sys-level invariant wf_all_notes is not proved (mechanism lemmas + end-to-end oracle only). git's notes code and fast-import are a validated kernel model. Trusted: Lean kernel, harness generators/canonicalisation, vlib/wf.py + e2e.parse_note, serde. Not exercised: CI rewrite, stash notes. Fixed in /repo: 4e028f1d (fan-out depth ≥ 2), 4fd233ae and efdc0647 (slow-path notes listed lines of files untouched by the commit). Known finding: newline in file name.",
+   ref="DESIGN.md §8 C05"),
+ "C15": dict(
+   technique="Lean 4 theorems over a hand-written model of the note-remap shortcut (remap scanner and fallback, raw diff-tree scanner, both fast-path preconditions, note equivalence) + in-process model-vs-code correspondence (pure, and on a scratch repository through an output seam) + end-to-end twin runs of generated rebase / cherry-pick histories with the shortcut on and off (GIT_AI_VERIF_NO_FAST_PATH)",
+   text="Machine-checked proof that (a) on every serializer-produced note the remap is exactly a base update, whatever the paths, prompt texts or old base contain; (b) the shortcut is declined whenever any pair differs on any tracked path, an original lacks a note, nothing is tracked, or (rebase) counts differ, and the raw-output scanner accepts iff no record appears for any pair; (c) the shortcut's note is ≈ the replayed note relative to an abstract replay that is replay-canonical and content-determined. The unconditional statement is refuted by a decided witness (real replay writes cumulative notes); blame-equivalence of the two notes is proved over a ghost reference model. The model is tied to the Rust code and to both binaries' notes by differential testing on every run.",
+   note="Trusted: Lean kernel; harness and scenario generators and the independent ≈; serde_json (shape, escaping asserted per case); git diff-tree output reference-modelled and compared byte-for-byte. Replay is abstract in (c). Known findings: slow-path-cumulative-lines (O14); slow-path-misattributes-lines-rewritten-later. Fixed: c69ae45b. Not covered: pathspec-magic file names, conflicts during rebase, cherry-pick with skipped empty picks.",
+   ref="DESIGN.md §8 C15"),
  "C11": dict(
    technique="Lean 4 theorems over a hand-written k-process step model (read/write steps on shared journals, rewrite logs and the notes ref; three locking disciplines): serialisability for every schedule by invariant induction, path-function injectivity, step commutation; tied to the binary by a sync-point controller that drives real git-ai processes through every interleaving and compares with the model, plus real-serial-execution and presence oracles and a stress run",
    text="Machine-checked proof that under the locking discipline the code implements, for any number of processes and every schedule of their read/write steps, every journal, rewrite log and the notes ref equals a serial execution in lock-acquisition order with every update applied exactly once; worktrees interfere only through the notes ref; the unlocked and append-only-locked variants provably lose or mis-credit updates. The model is re-tied to /repo on every run by exhaustive 2-process (thorough: sampled 3-process) interleaving of real processes at sync points.",
